@@ -32,6 +32,9 @@ from .model import FuncInfo, ClassInfo, Module, dotted, src_of, const_value
 
 F = ("F",)
 U = ("U",)
+# boolean constants held by locals (copy-once flags): inert for aliasing
+BTRUE = frozenset([("B", True)])
+BFALSE = frozenset([("B", False)])
 
 def is_flag(name):
     return name == "virtual" or name.startswith("inplace")
@@ -358,6 +361,7 @@ class _Interp:
         self.localdicts = {}
         self.varclass = {}
         self.awrites = []
+        self._cur_env = None
 
     def array_write(self, origins, line, what, chain=()):
         """An in-place write into a numerical array.  For data owned by a
@@ -434,15 +438,31 @@ class _Interp:
                 return False
         return True
 
-    def flag_test(self, test):
-        """Truth value of a branch test under the context, or None."""
+    def flag_test(self, test, env=None):
+        """Truth value of a branch test under the context (mode flags) and
+        the boolean constants currently held by locals, or None."""
         if isinstance(test, ast.Name) and test.id in self.ctx:
+            if env is not None:
+                cur = env.get(test.id)
+                if cur == BTRUE:
+                    return True
+                if cur == BFALSE:
+                    return False
+                if cur is not None and cur != frozenset([("P", test.id)]):
+                    return None  # the flag parameter was rebound locally
             return self.ctx[test.id]
+        if isinstance(test, ast.Name) and env is not None:
+            cur = env.get(test.id)
+            if cur == BTRUE:
+                return True
+            if cur == BFALSE:
+                return False
+            return None
         if isinstance(test, ast.UnaryOp) and isinstance(test.op, ast.Not):
-            v = self.flag_test(test.operand)
+            v = self.flag_test(test.operand, env)
             return None if v is None else (not v)
         if isinstance(test, ast.BoolOp):
-            vals = [self.flag_test(v) for v in test.values]
+            vals = [self.flag_test(v, env) for v in test.values]
             if isinstance(test.op, ast.And):
                 if any(v is False for v in vals):
                     return False
@@ -581,7 +601,7 @@ class _Interp:
         return True
 
     def s_If(self, st, env):
-        tv = self.flag_test(st.test)
+        tv = self.flag_test(st.test, env)
         self.ev(st.test, env)
         if tv is True:
             return self.block(st.body, env)
@@ -612,13 +632,20 @@ class _Interp:
     def s_For(self, st, env):
         it = self.ev(st.iter, env)
         elem = self.elements_of(st.iter, it, env)
+        # peel the first iteration (keeps copy-once flags precise), then
+        # iterate the rest to a fix-point, then join with "zero iterations"
+        e0 = dict(env)
+        cur = dict(env)
+        self.assign(st.target, elem, cur, None, st, unpack_elem=True)
+        self.block(st.body, cur)
         for _ in range(2):
-            e1 = dict(env)
-            self.assign(st.target, elem, e1, None, st, unpack_elem=True)
-            self.block(st.body, e1)
-            j = self.join(env, e1)
-            env.clear()
-            env.update(j)
+            e2 = dict(cur)
+            self.assign(st.target, elem, e2, None, st, unpack_elem=True)
+            self.block(st.body, e2)
+            cur = self.join(cur, e2)
+        j = self.join(e0, cur)
+        env.clear()
+        env.update(j)
         self.block(st.orelse, env)
         return True
 
@@ -626,12 +653,16 @@ class _Interp:
 
     def s_While(self, st, env):
         self.ev(st.test, env)
+        e0 = dict(env)
+        cur = dict(env)
+        self.block(st.body, cur)
         for _ in range(2):
-            e1 = dict(env)
-            self.block(st.body, e1)
-            j = self.join(env, e1)
-            env.clear()
-            env.update(j)
+            e2 = dict(cur)
+            self.block(st.body, e2)
+            cur = self.join(cur, e2)
+        j = self.join(e0, cur)
+        env.clear()
+        env.update(j)
         self.block(st.orelse, env)
         # `while True:` without break never falls through, keep simple
         return True
@@ -798,6 +829,10 @@ class _Interp:
         return m(node, env)
 
     def e_Constant(self, node, env):
+        if node.value is True:
+            return BTRUE
+        if node.value is False:
+            return BFALSE
         return frozenset([F])
 
     def e_Name(self, node, env):
@@ -811,7 +846,7 @@ class _Interp:
         return v
 
     def e_IfExp(self, node, env):
-        tv = self.flag_test(node.test)
+        tv = self.flag_test(node.test, env)
         self.ev(node.test, env)
         if tv is True:
             return self.ev(node.body, env)
@@ -1050,7 +1085,7 @@ class _Interp:
             return None
         if isinstance(expr, ast.Constant) and (expr.value is True or expr.value is False):
             return expr.value
-        v = self.flag_test(expr)
+        v = self.flag_test(expr, env)
         return v
 
     def call_ctx(self, callee, call_args, call_kws, bound_kw, skip_self):
@@ -1078,7 +1113,7 @@ class _Interp:
                 kwmap[kw.arg] = kw.value
         for fl in flags_of(real):
             if fl in kwmap:
-                v = self.flag_value(kwmap[fl], None)
+                v = self.flag_value(kwmap[fl], self._cur_env)
                 ctx[fl] = v
                 if v is None:
                     unknown.add(fl)
@@ -1090,7 +1125,7 @@ class _Interp:
             elif fl in pos and pos.index(fl) < len(call_args) and not any(
                 isinstance(a, ast.Starred) for a in call_args[: pos.index(fl) + 1]
             ):
-                v = self.flag_value(call_args[pos.index(fl)], None)
+                v = self.flag_value(call_args[pos.index(fl)], self._cur_env)
                 ctx[fl] = v
                 if v is None:
                     unknown.add(fl)
@@ -1100,7 +1135,7 @@ class _Interp:
                     if isinstance(sk, ast.Name) and sk.id in self.localdicts:
                         d = self.localdicts[sk.id]
                         if fl in d:
-                            v = self.flag_value(d[fl], None)
+                            v = self.flag_value(d[fl], self._cur_env)
                             ctx[fl] = v
                             if v is None:
                                 unknown.add(fl)
@@ -1175,7 +1210,9 @@ class _Interp:
                     out.add(U if o[0] != "A" else F)
                     continue
                 for s in src:
-                    if s[0] in ("F", "U"):
+                    if s[0] == "B":
+                        out.add(s if o[0] == "P" else F)
+                    elif s[0] in ("F", "U"):
                         out.add(s if o[0] == "P" else (F if s[0] == "F" else U))
                     elif o[0] == "P":
                         out.add(s)
@@ -1204,6 +1241,7 @@ class _Interp:
         produces it."""
         cache = {}
         results = []
+        self._cur_env = env
         for c in cands:
             ctx, unknown = self.call_ctx(c, call_args, call_kws, {}, skip_self)
             ctxs = [ctx]
@@ -1389,6 +1427,7 @@ class _Interp:
             self.generic_args_escape(node, env)
             return frozenset([F])
         # run __init__ with a fresh self
+        self._cur_env = env
         ctx, unknown = self.call_ctx(init, node.args, node.keywords, {}, True)
         ctxs = [ctx]
         for fl in unknown:
